@@ -1,6 +1,7 @@
 package gvc
 
 import (
+	"fmt"
 	"go/ast"
 	"go/types"
 )
@@ -215,8 +216,70 @@ func (x *Exec) assertWF(st *St, where, pos string) {
 
 // ---------- not yet modelled constructs ----------
 
+// callProtocol calls a function value that obeys a named protocol (a contract for function values).
 func (x *Exec) callProtocol(call *ast.CallExpr, fv *Val, st *St, fr *Frame, k kval) {
-	oos("call of an unknown function value at %s", x.W.pos(call.Pos()))
+	if fv.Proto == "" {
+		oos("call of an unknown function value at %s (no protocol attached)", x.W.pos(call.Pos()))
+	}
+	c := x.W.CS.ByKey["protocol."+fv.Proto]
+	if c == nil {
+		oos("unknown protocol %s", fv.Proto)
+	}
+	sig, ok := fv.Ty.Underlying().(*types.Signature)
+	if !ok {
+		oos("protocol call of a non-function at %s", x.W.pos(call.Pos()))
+	}
+	x.evalArgs(call.Args, st, fr, func(st *St, args []*Val) {
+		names := map[string]*Val{}
+		for i, a := range args {
+			if i < len(c.Params) && i < sig.Params().Len() {
+				names[c.Params[i]] = x.coerce(st, a, sig.Params().At(i).Type())
+			}
+		}
+		pos := x.W.pos(call.Pos())
+		pre := st.clone()
+		env := &CEnv{X: x, Names: names, St: st, Pkg: x.Fn.Pkg}
+		x.wrapCfail("protocol "+fv.Proto, func() {
+			for _, r := range c.Requires {
+				x.emit(st, oblTemplate{kind: "pre", label: r.Label, clause: r.Text, props: r.Props, pos: pos,
+					name: x.Fn.Key + "/call#" + c.Key + "/pre#" + r.Label}, nil, env.Formula(r.Expr))
+			}
+		})
+		var targets []modTarget
+		x.wrapCfail("modifies of protocol "+fv.Proto, func() { targets = x.modTargets(c, env) })
+		x.havocAlloc(st)
+		for _, t := range targets {
+			x.havocTarget(st, t, call.Pos())
+		}
+		post := map[string]*Val{}
+		for kx, v := range names {
+			post[kx] = v
+		}
+		var rvals []*Val
+		for i := 0; i < sig.Results().Len(); i++ {
+			rv := x.freshVal(st, "ret.proto", sig.Results().At(i).Type())
+			rvals = append(rvals, rv)
+			post[fmt.Sprintf("result%d", i)] = rv
+			if i == 0 {
+				post["result"] = rv
+			}
+		}
+		penv := &CEnv{X: x, Names: post, St: st, Pkg: x.Fn.Pkg, Old: &CEnv{X: x, Names: names, St: pre, Pkg: x.Fn.Pkg}}
+		x.wrapCfail("protocol "+fv.Proto, func() {
+			for _, e := range c.Ensures {
+				x.assume(st, penv.HypFormula(e.Expr))
+			}
+		})
+		st.note("call of function value under protocol %s at %s", fv.Proto, pos)
+		switch len(rvals) {
+		case 0:
+			k(st, &Val{})
+		case 1:
+			k(st, rvals[0])
+		default:
+			k(st, &Val{Tuple: rvals})
+		}
+	})
 }
 
 func (x *Exec) rangeIter(n *ast.RangeStmt, st *St, fr *Frame, k func(*St)) {
